@@ -378,6 +378,9 @@ def run(repo, chk):
         from . import c13, c17
         c13.run(repo, Remap(chk, {'C13.B0': 'C01.O1', 'C13.B1': 'C01.O1', 'C13.B2': 'C01.O1', 'C13.B3': 'C01.O1'}))
         c17.run(repo, Remap(chk, {f'C17.D{k}': 'C01.O1' for k in range(1, 8)}))
+        # overload selection (part of the statement): the call is bound to the overload the rules select (typing census)
+        from .. import typecensus
+        typecensus.decide(repo, chk, 'C01.O1', {'overload'}, 'hidc/ast/expressions.py')
     for fname, want in (('array_lookup', ['src_expr', 'idx_expr']), ('array_assignment', ['src_expr', 'idx_expr', 'rhs_expr'])):
         bad = None
         n = 0
